@@ -139,7 +139,7 @@ SnippetInv(text, terms, max, sn, checkLen) ==
        LET r == sn.highlighted[k] IN
        /\ r[1] <= r[2] /\ r[2] <= ByteLen(sn.fragment)
        /\ OnBoundary(sn.fragment, r[1]) /\ OnBoundary(sn.fragment, r[2])
-       /\ \E t \in SeqSet(sn.hl_tokens[k]) : t \in SeqSet(terms)
+       /\ \E t \in SeqSet(sn.hl_tokens[k]) : MapText(t, Lower) \in SeqSet(terms)    \* (the generator looks up token.text.to_lowercase())
   /\ \A k \in 1..(Len(sn.highlighted) - 1) : sn.highlighted[k][1] <= sn.highlighted[k + 1][1]
   /\ \A k \in 1..(Len(c) - 1) : c[k][2] <= c[k + 1][1]
   /\ sn.html = Html(sn.fragment, sn.highlighted)
